@@ -39,7 +39,7 @@
   the loop runs until BOTH streams are at EOF               poll_loop_left_only_at_eof_of_both, handler_closes_exactly_at_eof
   a ready descriptor is read in that iteration (xpoll.c's   ready_descriptor_gets_its_handler, silent_descriptor_not_handled,
     translation + dsh.c's mask), EINTR retried by the loop    interrupted_poll_is_retried, xpoll_contract,
-    stdout's handler before stderr's                          one_iteration_stdout_before_stderr (Relay/XPoll.lean)
+    handler order (learnt: stdout's first in dsh.c)            one_iteration_stdout_before_stderr, one_iteration_swapped_stderr_first
   a worker is done only after its output is delivered (C03) worker_done_has_delivered_everything, worker_done_equals_runStream
   a host that is given up on (timeout, poll error)          abandoned_stream_relays_what_was_read, worker_delivers_what_it_read
   a host whose command never starts                         unstarted_host_writes_nothing
@@ -603,31 +603,31 @@ theorem read_error_keeps_what_was_read {β : Type} (s : Stream β) (rc : Int) :
     POLLHUP without POLLIN -- are both picked up; xpoll's translation POLLHUP -> XPOLLERR and dsh.c's mask
     `XPOLLREAD|XPOLLERR` are both needed for that.) -/
 theorem ready_descriptor_gets_its_handler (sopt tAfter : Bool) (fdO fdE : Int) (staleO staleE : Nat) (rv : Int)
-    (hrv : rv ≠ -1) (r0 r1 : Nat) (rest : List Nat) (capO capE : Option Nat) :
-    (XPoll.loopIter sopt false tAfter fdO fdE staleO staleE (.ok rv (r0 :: r1 :: rest))).1.toPEv capO capE =
-      some (.poll
+    (hrv : rv ≠ -1) (r0 r1 : Nat) (rest : List Nat) (errFirst : Bool) (capO capE : Option Nat) :
+    (XPoll.loopIter sopt false tAfter fdO fdE staleO staleE (.ok rv (r0 :: r1 :: rest))).1.toPEv errFirst capO capE =
+      some ((if errFirst then PEv.pollRev else PEv.poll)
         (if XPoll.has r0 Gen.XP_POLLIN || XPoll.has r0 Gen.XP_POLLERR || XPoll.has r0 Gen.XP_POLLHUP
           then some capO else none)
         (if sopt && (XPoll.has r1 Gen.XP_POLLIN || XPoll.has r1 Gen.XP_POLLERR || XPoll.has r1 Gen.XP_POLLHUP)
           then some capE else none)) := by
   rw [XPoll.loopIter_dispatch sopt tAfter fdO fdE staleO staleE rv hrv r0 r1 rest]
-  rfl
+  cases errFirst <;> rfl
 
 /-- a descriptor the kernel says nothing about (in particular one the worker has closed: fd = -1, which poll(2)
     skips) is not handled -/
 theorem silent_descriptor_not_handled (sopt tAfter : Bool) (fdO fdE : Int) (staleO staleE : Nat) (rv : Int)
     (hrv : rv ≠ -1) (capO capE : Option Nat) :
-    (XPoll.loopIter sopt false tAfter fdO fdE staleO staleE (.ok rv [0, 0])).1.toPEv capO capE =
+    (XPoll.loopIter sopt false tAfter fdO fdE staleO staleE (.ok rv [0, 0])).1.toPEv false capO capE =
       some (.poll none none) := by
-  rw [ready_descriptor_gets_its_handler sopt tAfter fdO fdE staleO staleE rv hrv 0 0 [] capO capE]
+  rw [ready_descriptor_gets_its_handler sopt tAfter fdO fdE staleO staleE rv hrv 0 0 [] false capO capE]
   cases sopt <;> rfl
 
 /-- AN INTERRUPTED POLL IS RETRIED -- by the loop, not by xpoll (which hands -1/EINTR through) -- unless the
     command has timed out; every other poll error, and a timeout, end the loop (the worker gives the host up:
     `abandoned_stream_relays_what_was_read`) -/
 theorem interrupted_poll_is_retried (sopt tAfter : Bool) (fdO fdE : Int) (staleO staleE : Nat) (e : Nat)
-    (capO capE : Option Nat) :
-    (XPoll.loopIter sopt false tAfter fdO fdE staleO staleE (.fail e)).1.toPEv capO capE =
+    (errFirst : Bool) (capO capE : Option Nat) :
+    (XPoll.loopIter sopt false tAfter fdO fdE staleO staleE (.fail e)).1.toPEv errFirst capO capE =
       if e = Gen.XP_EINTR ∧ tAfter = false then some .eintr else none := by
   rw [XPoll.loopIter_error]
   by_cases he : e = Gen.XP_EINTR <;> cases tAfter <;> simp [he, XPoll.Iter.toPEv]
@@ -639,6 +639,27 @@ theorem one_iteration_stdout_before_stderr {β : Type} (ops : BufOps β) (cfg : 
     (o e : Option (Option Nat)) :
     ∃ a b : List Em, (pollStep ops cfg host w (.poll o e)).log =
       w.log ++ a.map (fun x => (false, x)) ++ b.map (fun x => (true, x)) := by
+  by_cases hl : w.loopLeft = true
+  · exact ⟨[], [], by simp [pollStep, hl]⟩
+  · simp only [pollStep, hl, Bool.false_eq_true, ↓reduceIte]
+    cases o with
+    | none =>
+      cases e with
+      | none => exact ⟨[], [], by simp [Worker.onReported]⟩
+      | some ce => exact ⟨[], _, by simp only [Worker.onReported, Worker.on, ↓reduceIte, List.map_nil, List.append_nil]; rfl⟩
+    | some co =>
+      cases e with
+      | none => exact ⟨_, [], by simp only [Worker.onReported, Worker.on, Bool.false_eq_true, ↓reduceIte, List.map_nil, List.append_nil]; rfl⟩
+      | some ce => exact ⟨_, _, by simp only [Worker.onReported, Worker.on, Bool.false_eq_true, ↓reduceIte]; rfl⟩
+
+/-- ... and with the two blocks swapped (a harmless reordering: `.pollRev`) stderr's handler runs first.  Every
+    theorem of this section quantifies over ALL event lists, `.poll` and `.pollRev` mixed at will: the property does
+    not depend on the order; the correspondence learns it from the code under test and checks it at every poll
+    return -/
+theorem one_iteration_swapped_stderr_first {β : Type} (ops : BufOps β) (cfg : Cfg) (host : Bytes) (w : Worker β)
+    (o e : Option (Option Nat)) :
+    ∃ a b : List Em, (pollStep ops cfg host w (.pollRev o e)).log =
+      w.log ++ b.map (fun x => (true, x)) ++ a.map (fun x => (false, x)) := by
   by_cases hl : w.loopLeft = true
   · exact ⟨[], [], by simp [pollStep, hl]⟩
   · simp only [pollStep, hl, Bool.false_eq_true, ↓reduceIte]
@@ -668,9 +689,10 @@ theorem xpoll_contract (xs : List XPoll.XFd) (nfds timeout : Int) :
 
 /-- non-vacuity: data on stdout + hang-up on stderr under -S: both handlers, stdout's first; without -S only
     stdout's; EOF of a pipe (POLLHUP alone) on stdout is handled; EINTR is retried -/
-example : (XPoll.loopIter true false false 5 6 7 7 (.ok 2 [Gen.XP_POLLIN, Gen.XP_POLLHUP])).1.calls = [false, true] ∧
-    (XPoll.loopIter false false false 5 (-1) 0 0 (.ok 2 [Gen.XP_POLLIN, Gen.XP_POLLHUP])).1.calls = [false] ∧
-    (XPoll.loopIter true false false 5 6 0 0 (.ok 1 [Gen.XP_POLLHUP, 0])).1.calls = [false] ∧
+example : (XPoll.loopIter true false false 5 6 7 7 (.ok 2 [Gen.XP_POLLIN, Gen.XP_POLLHUP])).1.calls false = [false, true] ∧
+    (XPoll.loopIter true false false 5 6 7 7 (.ok 2 [Gen.XP_POLLIN, Gen.XP_POLLHUP])).1.calls true = [true, false] ∧
+    (XPoll.loopIter false false false 5 (-1) 0 0 (.ok 2 [Gen.XP_POLLIN, Gen.XP_POLLHUP])).1.calls false = [false] ∧
+    (XPoll.loopIter true false false 5 6 0 0 (.ok 1 [Gen.XP_POLLHUP, 0])).1.calls false = [false] ∧
     (XPoll.loopIter true false false 5 6 0 0 (.fail Gen.XP_EINTR)).1 = .again := by decide
 
 /-! ### outside the domain: what the code does with lines over 128 KiB and with NUL bytes
